@@ -579,6 +579,7 @@ func run(c *hl.Ctx) {
 		depth = 3
 		rule += "Family d3-small: every sequence of 3 tags over type x timestamp x size {0,1,255,256} (140^3), flags rotating, split window 16 above 160 bytes. Family d3-big: every sequence of 3 tags over type {8,9,255} x timestamp {1,0x1000000,0xFFFFFFFF} x all six sizes with at least one body >= 65535, flags rotating, split window 16. Family max-body: body of 2^24-1 bytes alone and next to a second tag. "
 	}
+	rule += "Family near-max-body (both tiers): one tag of 2^24-12, 2^24-11, 2^24-10, 2^24-2 and 2^24-1 bytes (11 + size crosses 2^24), split window 2. "
 	rule += readersRule(c)
 	rule += largeRule(c)
 	rule += "Each case of the other families: library muxer output compared byte for byte with the independent writer and parsed by the independent parser; library demuxer run on the library-written and on the reference-written bytes under whole / EOF-with-data / one-byte / every two-piece segmentation, every returned value compared. Non-trivial = distinct case with >= 1 tag whose file was written without error and read back identically under every segmentation."
@@ -614,6 +615,13 @@ func run(c *hl.Ctx) {
 			return true
 		})
 		if !ok {
+			return
+		}
+	}
+	// family near-max-body: where 11 + body size needs a 25th bit (PreviousTagSize is a 32-bit field, the size a 24-bit one)
+	for i, sz := range []int{maxBody - 12, maxBody - 11, maxBody - 10, maxBody - 1, maxBody} {
+		fl := flagCombos[i%4]
+		if !e.do(&caseT{Family: "near-max-body", Video: fl[0], Audio: fl[1], Tags: []tagSpec{{9, 7, sz}}, Window: 2, AllBelow: 2048}) {
 			return
 		}
 	}
